@@ -103,6 +103,23 @@ CErrors(r) ==
   IF r.exp_at \in {"vc_only", "both_differ"} \/ r.iss_at \in {"vc_only", "nbf_vc_differ"} THEN {"structure"}
   ELSE (IF r.issuance > 0 THEN {"issuance_date"} ELSE {}) \cup (IF r.expiry = "-1" THEN {"expiration_date"} ELSE {})
 
+\* ------------------------------- which bounds are configured -------------------------------
+\* A bound the verifier did not configure defaults to the CURRENT TIME.  Instants are years; "now" is whenever the check runs
+\* (2026+): explicit bounds lie in the past (2001, 2005) or in the future (2150, 2200) and the credential's dates lie before,
+\* between and after them and on either side of now, so that a bound taken from the other option, or from the clock although
+\* it was configured, shows.
+DRows == [phase : {"D"}, latest_issuance : {"unset", "y2001", "y2150"}, earliest_expiry : {"unset", "y2005", "y2200"},
+          exp : {"absent", "y1999", "y2010", "y2100", "y2300"}, nbf : {"y2000", "y2003", "y2010", "y2100", "y2180"}]
+Year(t) == CASE t = "y1999" -> 1999 [] t = "y2000" -> 2000 [] t = "y2001" -> 2001 [] t = "y2003" -> 2003 [] t = "y2005" -> 2005
+             [] t = "y2010" -> 2010 [] t = "y2100" -> 2100 [] t = "y2150" -> 2150 [] t = "y2180" -> 2180 [] t = "y2200" -> 2200
+             [] t = "y2300" -> 2300
+Now == 2050                           \* any year between 2010 and 2100 gives the same table
+DErrors(r) ==
+  LET expiry_bound == IF r.earliest_expiry = "unset" THEN Now ELSE Year(r.earliest_expiry)
+      issuance_bound == IF r.latest_issuance = "unset" THEN Now ELSE Year(r.latest_issuance) IN
+     (IF Year(r.nbf) > issuance_bound THEN {"issuance_date"} ELSE {})
+  \cup (IF r.exp # "absent" /\ Year(r.exp) < expiry_bound THEN {"expiration_date"} ELSE {})
+
 \* ------------------------------- both phases: one failing condition in each -------------------------------
 XRows == [phase : {"X"}, s_fail : {"nonce", "signature", "scope", "identifier", "kid_fragment", "foreign"},
           u_fail : {"issuance", "expiry", "structure", "subject_holder", "revoked"}, fail_fast : {"FirstError", "AllErrors"}]
@@ -114,9 +131,10 @@ Evaluate(r) ==
   CASE r.phase = "S" -> [accept |-> SErrors(r) = {}, phase |-> "S", errs |-> SetToSeq(SErrors(r))]
     [] r.phase = "U" -> [accept |-> UErrors(r) = {}, phase |-> "U", errs |-> SetToSeq(UErrors(r))]
     [] r.phase = "C" -> [accept |-> CErrors(r) = {}, phase |-> "C", errs |-> SetToSeq(CErrors(r))]
+    [] r.phase = "D" -> [accept |-> DErrors(r) = {}, phase |-> "D", errs |-> SetToSeq(DErrors(r))]
     [] r.phase = "X" -> [accept |-> FALSE, phase |-> "S", errs |-> <<>>]   \* rejected in the signature phase, whatever the unit phase
 
-Init == row \in SRows \cup URows \cup CRows \cup XRows /\ out = Evaluate(row)
+Init == row \in SRows \cup URows \cup CRows \cup DRows \cup XRows /\ out = Evaluate(row)
 Next == UNCHANGED vars
 Spec == Init /\ [][Next]_vars
 
